@@ -904,9 +904,34 @@ def cyk_capture(lark_inst, text):
             return res
         finally:
             depth[0] -= 1
+    orig_parse = cyk._parse
+
+    def wrapped_parse(s_, g_):
+        table, trees = orig_parse(s_, g_)
+        cap['tokens'], cap['table'], cap['trees'] = list(s_), table, trees
+        return table, trees
     cyk.revert_cnf = wrapped
+    cyk._parse = wrapped_parse
+    from lark.exceptions import LarkError
     try:
         cap['tree'] = lark_inst.parse(text)
+    except LarkError as ex:          # rejected: the table cyk._parse filled is still of interest
+        cap['error'] = ex
     finally:
         cyk.revert_cnf = orig
+        cyk._parse = orig_parse
     return cap
+
+
+def cyk_table_lit(nm, cap):
+    """the table / trees dicts of cyk._parse as a Coq list over all spans (start, length)"""
+    toks = cap['tokens']
+    n = len(toks)
+    cells = []
+    for l in range(1, n + 1):
+        for i in range(n - l + 1):
+            rs = cap['table'].get((i, i + l - 1), ())
+            ts = cap['trees'].get((i, i + l - 1), {})
+            cells.append('(%s, %s, %s, %s)' % (N(i), N(l), L([nm.rule(r) for r in rs]),
+                                              L(['(%s, %s)' % (nm.nt(k.name), nm.tree(t)) for k, t in ts.items()])))
+    return L(['(%s, %s)' % (S(str(t.type)), S(str(t))) for t in toks]), L(cells)
